@@ -488,13 +488,19 @@ def run_cpu_path(res, r, n):
             if n_ <= 0xFC and n_ + bits // 8 - 1 >= 0xFB:
                 continue      # IMR/ISR: the byte-wise reference run could take an interrupt between its stores
             jobs.append({"imem_n": n_, "val": r.randrange(1 << 24) | 0x010101, "bits": bits})
+    # wide CPU stores across the edges of the two LCD windows: the bytes outside the window are plain RAM
+    for base in (0x2000, 0x3000, 0xA000, 0xB000):
+        for d in (-2, -1):
+            for bits in (16, 24):
+                jobs.append({"lcd_edge": base + d, "val": r.randrange(1 << 24) | 0x010101, "bits": bits})
     # the crate's own PC-E500 loaders: ROM window images and full system images of several lengths
     for which, ln in (("window", 0x40000), ("window", 0x8000), ("window", 0x100000), ("image", 0x100000), ("image", 0x40000),
                       ("image", 0x100100), ("image", 0x8000)):
         jobs.append({"loader": which, "len": ln})
     rr = rust.run("cpubus", jobs)
     for j, o in zip(jobs, rr):
-        res.monitor("cpu_path_loader" if "loader" in j else ("cpu_path_imem" if "imem_n" in j else "cpu_path"))
+        res.monitor("cpu_path_loader" if "loader" in j else ("cpu_path_imem" if "imem_n" in j else
+                                                              ("cpu_path_lcd_edge" if "lcd_edge" in j else "cpu_path")))
         res.evaluations += 1
         if o.get("error") or not o.get("ok"):
             res.violation({"clause": "cpu_store_load", "model": "rs"}, j, o)
